@@ -114,3 +114,10 @@ REG["C10"] = {
                    "all six assignments of lattice axes to (x, y, z), a cut extruded axis and wild payloads."),
     "level_note": _NOTE,
 }
+
+REG["C19"] = {
+    "technique": "TLC model checking of Point.tla over Mesh.tla (exact / inner / outer box matching and index arithmetic of the point query on an integer lattice with non-zero origin; PointRefines) + replay of every emitted scenario into the real reader at the physical cell centre",
+    "level_text": ("Every mesh within the bounds (6x4 coarse cells, <=3 levels), every queryable cell (finest level covering it, one cell inside its box) for zero / positive / negative origins, and points outside every face "
+                   "are model-checked and replayed with name, index and list selections under all six axis assignments and anisotropic cells (tolerance 1e-9 max|field|)."),
+    "level_note": _NOTE,
+}
